@@ -72,6 +72,31 @@ SCALINGS = {
     'Thermocouple:0': sensor_props('Thermocouple:0'), 'Thermocouple:1': sensor_props('Thermocouple:1'),
     'AdvancedAPI': sensor_props('AdvancedAPI'),
 }
+def _chain(first, second_kind):
+    """scale 0 = `first` (keeps the raw precision), scale 1 = a double-producing scale reading scale 0"""
+    s, d, u = R._s, R._d, R._u
+    p = [u('NI_Number_Of_Scales', 2)]
+    if first == 'NoOp':
+        p += [s('NI_Scale[0]_Scale_Type', 'AdvancedAPI')]
+    else:
+        p += [s('NI_Scale[0]_Scale_Type', 'Add'), u('NI_Scale[0]_Add_Left_Operand_Input_Source', 0xFFFFFFFF),
+              u('NI_Scale[0]_Add_Right_Operand_Input_Source', 0xFFFFFFFF)]
+    if second_kind == 'Linear':
+        p += [s('NI_Scale[1]_Scale_Type', 'Linear'), d('NI_Scale[1]_Linear_Slope', 0.5), d('NI_Scale[1]_Linear_Y_Intercept', 1.0),
+              u('NI_Scale[1]_Linear_Input_Source', 0)]
+    elif second_kind == 'Thermocouple':
+        p += [s('NI_Scale[1]_Scale_Type', 'Thermocouple'), u('NI_Scale[1]_Thermocouple_Thermocouple_Type', 10073),
+              u('NI_Scale[1]_Thermocouple_Scaling_Direction', 1), u('NI_Scale[1]_Thermocouple_Input_Source', 0)]
+    elif second_kind == 'Polynomial':
+        p += [s('NI_Scale[1]_Scale_Type', 'Polynomial'), u('NI_Scale[1]_Polynomial_Coefficients_Size', 2),
+              d('NI_Scale[1]_Polynomial_Coefficients[0]', 1.0), d('NI_Scale[1]_Polynomial_Coefficients[1]', 2.0),
+              u('NI_Scale[1]_Polynomial_Input_Source', 0)]
+    return p
+
+
+for _f in ('NoOp', 'AddRawRaw'):
+    for _k in ('Linear', 'Thermocouple', 'Polynomial'):
+        SCALINGS['%s>%s' % (_f, _k)] = _chain(_f, _k)
 for _c in (10183, 10184, 10185, 10188, 10189, 10271, 10272):
     SCALINGS['Strain:%d' % _c] = sensor_props('Strain:%d' % _c)
 
